@@ -945,3 +945,434 @@ Proof.
     + rewrite app_length. cbn. lia.
     + rewrite app_length. cbn. lia.
 Qed.
+
+(** * Totality: the parsers never panic, on arbitrary bytes *)
+Lemma fields_aux_nonempty s : forall cur, Forall (fun c => c <> []) (fields_aux cur s).
+Proof.
+  induction s as [|c r IH]; intro cur; cbn [fields_aux].
+  - destruct cur as [|x cur']; cbn [nonempty]; constructor; [|constructor].
+    intro E. apply (f_equal (@length N)) in E. rewrite rev_length in E. discriminate.
+  - destruct (c =? slash); [|apply IH].
+    destruct cur as [|x cur']; cbn [nonempty]; [apply IH|]. constructor; [|apply IH].
+    intro E. apply (f_equal (@length N)) in E. rewrite rev_length in E. discriminate.
+Qed.
+
+Lemma validate_components_no_panic l :
+  Forall (fun c => c <> []) l -> validate_components l <> Panic.
+Proof.
+  induction 1 as [|c r Hc Hr IH]; cbn [validate_components]; [discriminate|].
+  rewrite nonempty_true by exact Hc. destruct (memb c c20_reserved); [discriminate|exact IH].
+Qed.
+
+Lemma new_digest_no_panic i f h s : new_digest i f h s <> Panic.
+Proof.
+  unfold new_digest.
+  destruct (negb (N.of_nat (length h) =? 2 * snd f)); [discriminate|].
+  destruct (negb (forallb lowerhex h)); [discriminate|].
+  destruct (s <? 0)%Z; discriminate.
+Qed.
+
+Lemma find_split_total stop fields k : forall fuel i,
+  (1 <= k)%nat -> (i + k <= length fields)%nat -> (length fields - k - i < fuel)%nat ->
+  match find_split stop fields k i fuel with
+  | Ok sp => (i <= sp)%nat /\ (sp + k <= length fields)%nat
+  | Err _ => True
+  | Panic => False
+  end.
+Proof.
+  induction fuel as [|fuel IH]; intros i Hk Hi Hf; [lia|]. cbn [find_split].
+  unfold nth_field. destruct (nth_error fields i) as [c|] eqn:E.
+  - cbn [bind]. destruct (stop c); [lia|].
+    destruct (Nat.ltb_spec (length fields - k) (S i)); [exact I|].
+    specialize (IH (S i) Hk ltac:(lia) ltac:(lia)).
+    destruct (find_split stop fields k (S i) fuel); [lia|exact I|exact IH].
+  - apply nth_error_None in E. lia.
+Qed.
+
+Ltac no_panic_step :=
+  cbn [bind skipn nth_field nth_error length Nat.ltb Nat.leb];
+  match goal with
+  | H : new_digest _ _ _ _ = Panic |- _ => exfalso; exact (new_digest_no_panic _ _ _ _ H)
+  | |- Err _ <> Panic => discriminate
+  | |- Ok _ <> Panic => discriminate
+  | |- context [match ?x with _ => _ end] => destruct x eqn:?
+  | |- context [bind ?x _] => destruct x eqn:?
+  end.
+
+Lemma parse_common_no_panic header trailer :
+  Forall (fun c => c <> []) header -> (3 <= length trailer)%nat ->
+  parse_common header trailer <> Panic.
+Proof.
+  intros Hh Hl. unfold parse_common, new_instance_name_from_components.
+  pose proof (validate_components_no_panic header Hh) as Hv.
+  destruct (validate_components header) as [[]| |]; [|cbn [bind]; discriminate|congruence].
+  cbn [bind].
+  destruct trailer as [|t0 [|t1 [|t2 rest]]]; cbn [length] in Hl; try lia.
+  destruct rest as [|r0 [|r1 rest']]; repeat no_panic_step.
+Qed.
+
+Lemma Forall_firstn' {T} (P : T -> Prop) n l : Forall P l -> Forall P (firstn n l).
+Proof.
+  intro H. rewrite Forall_forall in *. intros x Hx. apply H.
+  rewrite <- (firstn_skipn n l). apply in_or_app. left. exact Hx.
+Qed.
+
+Theorem parse_total_proof s : parse_read_path s <> Panic /\ parse_write_path s <> Panic.
+Proof.
+  pose proof (fields_aux_nonempty s []) as Hne. fold (fields_by_slash s) in Hne.
+  split.
+  - unfold parse_read_path. destruct (Nat.ltb_spec (length (fields_by_slash s)) 3) as [L|L]; [discriminate|].
+    pose proof (find_split_total (fun f => beqb f c20_blobs || beqb f c20_compressed_blobs)
+                  (fields_by_slash s) 3 (S (length (fields_by_slash s))) 0 ltac:(lia) ltac:(lia) ltac:(lia)) as F.
+    destruct (find_split _ (fields_by_slash s) 3 0 _) as [sp| |]; [|discriminate|destruct F].
+    cbn [bind]. apply parse_common_no_panic.
+    + apply Forall_firstn'. exact Hne.
+    + rewrite skipn_length. lia.
+  - unfold parse_write_path. destruct (Nat.ltb_spec (length (fields_by_slash s)) 5) as [L|L]; [discriminate|].
+    pose proof (find_split_total (fun f => beqb f c20_uploads)
+                  (fields_by_slash s) 5 (S (length (fields_by_slash s))) 0 ltac:(lia) ltac:(lia) ltac:(lia)) as F.
+    destruct (find_split _ (fields_by_slash s) 5 0 _) as [sp| |]; [|discriminate|destruct F].
+    cbn [bind]. apply parse_common_no_panic.
+    + apply Forall_firstn'. exact Hne.
+    + rewrite skipn_length. lia.
+Qed.
+
+Theorem instance_name_total_proof s : new_instance_name s <> Panic.
+Proof.
+  unfold new_instance_name.
+  destruct (has_prefix [slash] s || has_suffix [slash] s || contains [slash; slash] s); [discriminate|].
+  pose proof (validate_components_no_panic (fields_by_slash s) (fields_aux_nonempty s [])) as H.
+  destruct (validate_components (fields_by_slash s)) as [[]| |]; cbn [bind]; congruence.
+Qed.
+
+Lemma read_uvarint_no_panic fuel : forall first x s inp, read_uvarint fuel first x s inp <> Panic.
+Proof.
+  induction fuel as [|f IH]; intros first x s inp; cbn [read_uvarint]; [discriminate|].
+  destruct inp as [|b r]; [discriminate|].
+  destruct (b <? 128); [|apply IH].
+  destruct ((match f with O => true | S _ => false end) && (1 <? b)); discriminate.
+Qed.
+
+Theorem compact_total_proof inst inp : new_digest_from_compact_binary inst inp <> Panic.
+Proof.
+  unfold new_digest_from_compact_binary. destruct inp as [|e r]; [discriminate|].
+  unfold get_digest_function. destruct (get_bare_function e 0) as [f|]; cbn [bind]; [|discriminate].
+  destruct (length r <? N.to_nat (snd f))%nat; [discriminate|].
+  unfold read_varint.
+  pose proof (read_uvarint_no_panic 10 true 0 0 (skipn (N.to_nat (snd f)) r)) as H.
+  destruct (read_uvarint 10 true 0 0 (skipn (N.to_nat (snd f)) r)) as [[ux rest]| |]; cbn [bind];
+    [|discriminate|congruence].
+  pose proof (new_digest_no_panic inst f (hex_encode (firstn (N.to_nat (snd f)) r)) (unzigzag ux)) as H2.
+  destruct (new_digest inst f (hex_encode (firstn (N.to_nat (snd f)) r)) (unzigzag ux)); cbn [bind];
+    congruence || discriminate.
+Qed.
+
+(** * Rejection of each malformed class *)
+Lemma reject_wrong_hash_length inst f h s :
+  N.of_nat (length h) <> 2 * snd f -> new_digest inst f h s = Err InvalidArgument.
+Proof. intro H. unfold new_digest. apply N.eqb_neq in H. rewrite H. reflexivity. Qed.
+
+Lemma reject_non_lowerhex inst f h s c :
+  In c h -> lowerhex c = false -> new_digest inst f h s = Err InvalidArgument.
+Proof.
+  intros Hc Hl. unfold new_digest. destruct (negb (N.of_nat (length h) =? 2 * snd f)); [reflexivity|].
+  assert (forallb lowerhex h = false) as ->; [|reflexivity].
+  destruct (forallb lowerhex h) eqn:E; [|reflexivity].
+  rewrite forallb_forall in E. rewrite (E c Hc) in Hl. discriminate.
+Qed.
+
+Lemma uppercase_is_not_lowerhex c : 65 <= c <= 70 -> lowerhex c = false.
+Proof.
+  intro H. unfold lowerhex. apply orb_false_iff. split; apply andb_false_iff.
+  - right. apply N.leb_gt. lia.
+  - left. apply N.leb_gt. lia.
+Qed.
+
+Lemma reject_negative_size inst f h s :
+  (s < 0)%Z -> new_digest inst f h s = Err InvalidArgument.
+Proof.
+  intro H. unfold new_digest. destruct (negb (N.of_nat (length h) =? 2 * snd f)); [reflexivity|].
+  destruct (negb (forallb lowerhex h)); [reflexivity|].
+  apply Z.ltb_lt in H. rewrite H. reflexivity.
+Qed.
+
+(** strconv.ParseInt: a non-digit after the optional sign, no digit at all, or a value
+    outside int64 is an error *)
+Definition strip_sign (s : bytes) : bytes :=
+  match s with c :: r => if (c =? 43) || (c =? dash) then r else s | [] => [] end.
+Lemma reject_non_numeric_size s : forallb is_digit (strip_sign s) = false -> parse_int s = None.
+Proof.
+  unfold parse_int, strip_sign. destruct s as [|c r]; [reflexivity|].
+  destruct (c =? 43); cbn [orb].
+  - intro H. destruct r; [reflexivity|]. rewrite H. reflexivity.
+  - destruct (c =? dash).
+    + intro H. destruct r; [reflexivity|]. rewrite H. reflexivity.
+    + intro H. rewrite H. reflexivity.
+Qed.
+Lemma reject_empty_size : parse_int [] = None /\ parse_int [43] = None /\ parse_int [dash] = None.
+Proof. repeat split. Qed.
+Lemma reject_overflowing_size ds :
+  ds <> [] -> forallb is_digit ds = true -> 2 ^ 63 <= horner 0 ds -> parse_int ds = None.
+Proof.
+  intros Hne Hd Hv. unfold parse_int. destruct ds as [|c r]; [congruence|].
+  assert (is_digit c = true) as Dc by (cbn in Hd; apply andb_true_iff in Hd; tauto).
+  apply is_digit_range in Dc.
+  assert (c =? 43 = false) as -> by (apply N.eqb_neq; lia).
+  assert (c =? dash = false) as -> by (apply N.eqb_neq; unfold dash; lia).
+  rewrite Hd. apply N.ltb_ge in Hv. rewrite Hv. reflexivity.
+Qed.
+(** whatever ParseInt accepts is an int64 *)
+Definition ptail (neg : bool) (ds : bytes) : option Z :=
+  match ds with
+  | [] => None
+  | _ => if forallb is_digit ds then
+           let v := horner 0 ds in
+           if neg then (if v <=? 2 ^ 63 then Some (- Z.of_N v)%Z else None)
+           else (if v <? 2 ^ 63 then Some (Z.of_N v) else None)
+         else None
+  end.
+Lemma ptail_range neg ds z : ptail neg ds = Some z -> (- 2 ^ 63 <= z < 2 ^ 63)%Z.
+Proof.
+  assert ((2 ^ 63)%Z = 9223372036854775808%Z) as E by reflexivity. rewrite E.
+  assert (2 ^ 63 = 9223372036854775808) as E' by reflexivity.
+  unfold ptail. rewrite E'. destruct ds as [|d ds']; [discriminate|].
+  destruct (forallb is_digit (d :: ds')); [|discriminate]. cbv zeta.
+  generalize (horner 0 (d :: ds')). intro v.
+  destruct neg.
+  - destruct (N.leb_spec v 9223372036854775808); [|discriminate]. intros [= <-]. lia.
+  - destruct (N.ltb_spec v 9223372036854775808); [|discriminate]. intros [= <-]. lia.
+Qed.
+Lemma parse_int_range s z : parse_int s = Some z -> (- 2 ^ 63 <= z < 2 ^ 63)%Z.
+Proof.
+  destruct s as [|c r]; [discriminate|].
+  assert (parse_int (c :: r) = if c =? 43 then ptail false r else if c =? dash then ptail true r
+                               else ptail false (c :: r)) as ->.
+  { unfold parse_int, ptail. destruct (c =? 43); [reflexivity|]. destruct (c =? dash); reflexivity. }
+  destruct (c =? 43); [apply ptail_range|]. destruct (c =? dash); apply ptail_range.
+Qed.
+
+Lemma reject_reserved_keyword comps c :
+  Forall (fun c => c <> []) comps -> In c comps -> In c c20_reserved ->
+  new_instance_name_from_components comps = Err InvalidArgument.
+Proof.
+  intros Hne Hc Hr. unfold new_instance_name_from_components.
+  assert (validate_components comps = Err InvalidArgument) as ->; [|reflexivity].
+  induction Hne as [|x r Hx Hne IH]; [destruct Hc|]. cbn [validate_components].
+  rewrite nonempty_true by exact Hx.
+  destruct (memb x c20_reserved) eqn:E; [reflexivity|].
+  destruct Hc as [->|Hc]; [|apply IH, Hc].
+  apply memb_In in Hr. congruence.
+Qed.
+
+Lemma has_prefix_app p s : has_prefix p (p ++ s) = true.
+Proof. induction p as [|x p IH]; [destruct s; reflexivity|]. cbn. rewrite N.eqb_refl. exact IH. Qed.
+Lemma contains_app p a b : contains p (a ++ p ++ b) = true.
+Proof.
+  induction a as [|x a IH]; cbn [app].
+  - destruct (p ++ b) eqn:E; unfold contains; fold contains; rewrite <- E, has_prefix_app; reflexivity.
+  - cbn [contains]. rewrite IH. apply orb_true_r.
+Qed.
+
+Lemma reject_redundant_slashes :
+  (forall s, new_instance_name (slash :: s) = Err InvalidArgument) /\
+  (forall s, new_instance_name (s ++ [slash]) = Err InvalidArgument) /\
+  (forall a b, new_instance_name (a ++ slash :: slash :: b) = Err InvalidArgument).
+Proof.
+  split; [|split]; intros; unfold new_instance_name.
+  - assert (has_prefix [slash] (slash :: s) = true) as -> by reflexivity. reflexivity.
+  - unfold has_suffix. rewrite rev_app_distr.
+    assert (has_prefix (rev [slash]) (rev [slash] ++ rev s) = true) as -> by reflexivity.
+    rewrite orb_true_r. reflexivity.
+  - change (a ++ slash :: slash :: b) with (a ++ [slash; slash] ++ b). rewrite contains_app.
+    rewrite orb_true_r. reflexivity.
+Qed.
+
+Lemma reject_unknown_function e :
+  get_bare_function e 0 = None -> get_digest_function e 0 = Err InvalidArgument.
+Proof. intro H. unfold get_digest_function. rewrite H. reflexivity. Qed.
+
+Lemma reject_unknown_compressor header name rest :
+  validate_components header = Ok tt -> compressor_by_name name = None ->
+  parse_common header (c20_compressed_blobs :: name :: rest) = Err Unimplemented.
+Proof.
+  intros Hv Hn. unfold parse_common, new_instance_name_from_components. rewrite Hv.
+  cbn [bind nth_field nth_error]. destruct keyword_facts as [K _]. rewrite K, beqb_refl.
+  cbn [bind nth_field nth_error]. rewrite Hn. reflexivity.
+Qed.
+
+Lemma reject_truncated_paths s :
+  ((length (fields_by_slash s) < 3)%nat -> parse_read_path s = Err InvalidArgument) /\
+  ((length (fields_by_slash s) < 5)%nat -> parse_write_path s = Err InvalidArgument).
+Proof.
+  split; intro H; [unfold parse_read_path|unfold parse_write_path];
+    apply Nat.ltb_lt in H; rewrite H; reflexivity.
+Qed.
+
+(** * Ancestors: GetDigestsWithParentInstanceNames = the chain of component prefixes *)
+Lemma join_snoc cs c : cs <> [] -> join_slash (cs ++ [c]) = join_slash cs ++ slash :: c.
+Proof.
+  induction cs as [|x r IH]; intro H; [congruence|].
+  destruct r as [|y r'].
+  - reflexivity.
+  - change ((x :: y :: r') ++ [c]) with (x :: (y :: r') ++ [c]).
+    change (join_slash (x :: (y :: r') ++ [c])) with (x ++ slash :: join_slash ((y :: r') ++ [c])).
+    rewrite IH by discriminate.
+    change (join_slash (x :: y :: r')) with (x ++ slash :: join_slash (y :: r')).
+    rewrite <- app_assoc. reflexivity.
+Qed.
+
+Lemma prefixes_snoc {T} (cs : list T) c : prefixes (cs ++ [c]) = prefixes cs ++ [cs ++ [c]].
+Proof.
+  induction cs as [|x r IH]; [reflexivity|].
+  cbn [app prefixes]. rewrite IH, map_app. reflexivity.
+Qed.
+Lemma prefixes_head {T} (l : list T) : prefixes l = [] :: tl (prefixes l).
+Proof. destruct l; reflexivity. Qed.
+
+Lemma count_slashes_app a b : count_slashes (a ++ b) = (count_slashes a + count_slashes b)%nat.
+Proof. induction a as [|x a IH]; [reflexivity|]. cbn [app count_slashes]. rewrite IH. lia. Qed.
+Lemma count_slashes_free c : slash_free c -> count_slashes c = 0%nat.
+Proof.
+  induction c as [|x c IH]; intro H; [reflexivity|]. cbn [count_slashes].
+  assert (x =? slash = false) as -> by (apply N.eqb_neq; intro E; apply H; left; auto).
+  apply IH. intro K. apply H. right. exact K.
+Qed.
+Lemma count_slashes_join comps :
+  comps <> [] -> Forall (fun c => c <> [] /\ slash_free c) comps ->
+  count_slashes (join_slash comps) = (length comps - 1)%nat.
+Proof.
+  induction comps as [|x r IH]; intros H F; [congruence|]. inversion F as [|? ? [_ Hx] Fr]; subst.
+  destruct r as [|y r'].
+  - cbn [join_slash length]. rewrite count_slashes_free by exact Hx. reflexivity.
+  - change (join_slash (x :: y :: r')) with (x ++ slash :: join_slash (y :: r')).
+    rewrite count_slashes_app, count_slashes_free by exact Hx. cbn [count_slashes].
+    rewrite N.eqb_refl, IH by (discriminate || assumption). cbn [length]. lia.
+Qed.
+
+(** first and last byte of a joined instance name are not slashes *)
+Lemma join_first_last comps :
+  comps <> [] -> Forall (fun c => c <> [] /\ slash_free c) comps ->
+  (exists a t, join_slash comps = a :: t /\ a <> slash) /\
+  (exists t z, join_slash comps = t ++ [z] /\ z <> slash).
+Proof.
+  intros H F. split.
+  - destruct comps as [|x r]; [congruence|]. inversion F as [|? ? [Hne Hsf] _]; subst.
+    destruct x as [|a x']; [congruence|].
+    assert (a <> slash) by (intro E; apply Hsf; left; auto).
+    destruct r; [exists a, x'; split; [reflexivity|assumption]|].
+    eexists a, _. split; [reflexivity|assumption].
+  - destruct (exists_last H) as [cs [c ->]].
+    apply Forall_app in F as [_ Fc]. inversion Fc as [|? ? [Hne Hsf] _]; subst.
+    destruct (exists_last Hne) as [c' [z ->]].
+    assert (z <> slash) by (intro E; apply Hsf; apply in_or_app; right; left; auto).
+    destruct cs as [|y cs'].
+    + exists c', z. split; [reflexivity|assumption].
+    + rewrite join_snoc by discriminate.
+      exists (join_slash (y :: cs') ++ slash :: c'), z. split; [|assumption].
+      rewrite <- app_assoc. reflexivity.
+Qed.
+
+Lemma count_slashes_mid s :
+  (exists a t, s = a :: t /\ a <> slash) -> (exists t z, s = t ++ [z] /\ z <> slash) ->
+  count_slashes (firstn (length s - 2) (tl s)) = count_slashes s.
+Proof.
+  intros [a [t [-> Ha]]] [t' [z [E Hz]]]. cbn [tl length count_slashes].
+  assert (a =? slash = false) as -> by (apply N.eqb_neq; exact Ha). cbn [Nat.add].
+  destruct t' as [|b t''].
+  - cbn in E. injection E as -> ->. reflexivity.
+  - cbn [app] in E. injection E as <- ->. rewrite app_length. cbn [length].
+    replace (S (length t'' + 1) - 2)%nat with (length t'' + 0)%nat by lia.
+    rewrite firstn_app_2. cbn [firstn]. rewrite app_nil_r, count_slashes_app. cbn [count_slashes].
+    assert (z =? slash = false) as -> by (apply N.eqb_neq; exact Hz). lia.
+Qed.
+
+Lemma scan_back_app pre c : forall k,
+  slash_free c -> (k < length c)%nat ->
+  scan_back (pre ++ slash :: c) (S (length pre) + k) = Ok (S (length pre)).
+Proof.
+  induction k as [|k IH]; intros Hsf Hk.
+  - rewrite Nat.add_0_r. cbn [scan_back]. unfold nth_byte.
+    rewrite nth_error_app2 by lia. rewrite Nat.sub_diag. cbn [nth_error bind]. rewrite N.eqb_refl. reflexivity.
+  - replace (S (length pre) + S k)%nat with (S (S (length pre) + k)) by lia. cbn [scan_back]. unfold nth_byte.
+    rewrite nth_error_app2 by lia.
+    replace (S (length pre) + k - length pre)%nat with (S k) by lia. cbn [nth_error].
+    destruct (nth_error c k) as [x|] eqn:E; [|apply nth_error_None in E; lia].
+    cbn [bind]. assert (x =? slash = false) as ->.
+    { apply N.eqb_neq. intro Q. subst x. apply Hsf. eapply nth_error_In. exact E. }
+    apply IH; [exact Hsf|lia].
+Qed.
+
+Lemma parents_loop_spec K : forall comps acc,
+  comps <> [] -> Forall (fun c => c <> [] /\ slash_free c) comps ->
+  parents_loop (K ++ dash :: join_slash comps) (length comps - 1) acc =
+  Ok (map (fun p => K ++ dash :: join_slash p) (tl (prefixes comps)) ++ acc).
+Proof.
+  intro comps. induction comps as [|c cs IH] using rev_ind; intros acc H F; [congruence|].
+  apply Forall_app in F as [Fcs Fc]. inversion Fc as [|? ? [Hne Hsf] _]; subst.
+  rewrite prefixes_snoc. destruct cs as [|y cs'].
+  - cbn. reflexivity.
+  - rewrite app_length. cbn [length]. replace (S (length cs') + 1 - 1)%nat with (S (length cs')) by lia.
+    cbn [parents_loop]. rewrite join_snoc by discriminate.
+    set (pre := K ++ dash :: join_slash (y :: cs')).
+    assert (Ev : K ++ dash :: join_slash (y :: cs') ++ slash :: c = pre ++ slash :: c).
+    { unfold pre. rewrite <- app_assoc. reflexivity. }
+    rewrite Ev.
+    assert (Lc : (0 < length c)%nat) by (destruct c; [congruence|cbn; lia]).
+    replace (length (pre ++ slash :: c) - 1)%nat with (S (length pre) + (length c - 1))%nat
+      by (rewrite app_length; cbn [length]; lia).
+    rewrite scan_back_app by (assumption || lia). cbn [bind].
+    replace (S (length pre) - 1)%nat with (length pre) by lia.
+    rewrite slice_prefix. cbn [bind]. unfold pre.
+    replace (length (y :: cs') - 1)%nat with (length (y :: cs') - 1)%nat in IH by reflexivity.
+    cbn [length] in IH. replace (S (length cs') - 1)%nat with (length cs') in IH by lia.
+    rewrite IH by (discriminate || assumption).
+    rewrite (prefixes_head (y :: cs')). cbn [tl app]. rewrite map_app. cbn [map].
+    change (y :: cs' ++ [c]) with ((y :: cs') ++ [c]). rewrite join_snoc by discriminate.
+    rewrite <- (app_assoc _ [_] acc). cbn [app].
+    replace ((K ++ dash :: join_slash (y :: cs')) ++ slash :: c)
+      with (K ++ dash :: join_slash (y :: cs') ++ slash :: c) by (rewrite <- app_assoc; reflexivity).
+    reflexivity.
+Qed.
+
+Theorem parents_spec_proof d comps :
+  valid_digest d -> d_inst d = join_slash comps -> Forall valid_component comps ->
+  get_parents (pack d) = Ok (map (fun p => pack (with_instance d (join_slash p))) (prefixes comps)).
+Proof.
+  intros V Hi Hc. destruct (valid_component_facts comps Hc) as [_ [Hgf _]].
+  pose proof (vd_size d V) as Hsz.
+  assert (Hp : forall p, pack (with_instance d (join_slash p)) = key0 d ++ dash :: join_slash p).
+  { intro p. rewrite pack_shape by (cbn; lia). reflexivity. }
+  rewrite (map_ext _ _ Hp).
+  unfold get_parents. rewrite (unpack_pack d V). cbn [bind u_se].
+  rewrite pack_shape by lia. rewrite Hi.
+  replace (key0 d ++ dash :: join_slash comps) with ((key0 d ++ [dash]) ++ join_slash comps)
+    by (rewrite <- app_assoc; reflexivity).
+  replace (S (length (key0 d))) with (length (key0 d ++ [dash])) by (rewrite app_length; cbn; lia).
+  rewrite slice_prefix. cbn [bind].
+  destruct comps as [|c0 cs].
+  - cbn [join_slash]. rewrite app_nil_r, Nat.eqb_refl. cbn. reflexivity.
+  - assert (Hne : c0 :: cs <> []) by discriminate.
+    destruct (join_first_last (c0 :: cs) Hne Hgf) as [Hf Hl].
+    assert (Ln : (0 < length (join_slash (c0 :: cs)))%nat).
+    { destruct Hf as [a [t [-> _]]]. cbn. lia. }
+    destruct (Nat.eqb_spec (length (key0 d ++ [dash])) (length ((key0 d ++ [dash]) ++ join_slash (c0 :: cs)))) as [E|_];
+      [rewrite !app_length in E; lia|].
+    assert (Hmid : firstn (length ((key0 d ++ [dash]) ++ join_slash (c0 :: cs)) - 1 - S (length (key0 d ++ [dash])))
+                     (skipn (S (length (key0 d ++ [dash]))) ((key0 d ++ [dash]) ++ join_slash (c0 :: cs)))
+                   = firstn (length (join_slash (c0 :: cs)) - 2) (tl (join_slash (c0 :: cs)))).
+    { rewrite app_length.
+      replace (length (key0 d ++ [dash]) + length (join_slash (c0 :: cs)) - 1 - S (length (key0 d ++ [dash])))%nat
+        with (length (join_slash (c0 :: cs)) - 2)%nat by lia.
+      f_equal. destruct Hf as [a [t [-> _]]].
+      replace (S (length (key0 d ++ [dash]))) with (length ((key0 d ++ [dash]) ++ [a]))
+        by (rewrite app_length; cbn; lia).
+      replace ((key0 d ++ [dash]) ++ a :: t) with (((key0 d ++ [dash]) ++ [a]) ++ t)
+        by (rewrite <- app_assoc; reflexivity).
+      rewrite skipn_app_le by lia. rewrite skipn_all. reflexivity. }
+    rewrite Hmid, (count_slashes_mid _ Hf Hl), (count_slashes_join _ Hne Hgf).
+    replace ((key0 d ++ [dash]) ++ join_slash (c0 :: cs)) with (key0 d ++ dash :: join_slash (c0 :: cs))
+      by (rewrite <- app_assoc; reflexivity).
+    rewrite parents_loop_spec by assumption. cbn [bind].
+    rewrite (prefixes_head (c0 :: cs)). cbn [map tl]. rewrite app_nil_r.
+    reflexivity.
+Qed.
